@@ -871,6 +871,48 @@ func ruleListCover(p *Prog, r *Result) {
 			return isI
 		})
 		requireCases("index|"+nm, p.Pos(f.Pos()), have, withJSON, "list[n]")
+		if strings.HasSuffix(nm, "Batch") {
+			// ... per row: a column can mix representations ("" for a missing member next to lists), so the
+			// representation is tested on the element of each row, in one function, not read off a fixed row
+			perRow := func(g *ssa.Function) map[string]bool {
+				return switchCases(g, func(v ssa.Value) bool {
+					if _, isI := v.Type().Underlying().(*types.Interface); !isI {
+						return false
+					}
+					ld, ok := v.(*ssa.UnOp)
+					if !ok {
+						return false
+					}
+					ia, ok := ld.X.(*ssa.IndexAddr)
+					if !ok {
+						return false
+					}
+					_, isC := constInt(ia.Index)
+					return !isC
+				})
+			}
+			best := perRow(f)
+			covers := func(h map[string]bool) bool {
+				for k := range withJSON {
+					alt := k
+					if k == "[]any" {
+						alt = "[]interface{}"
+					}
+					if !h[k] && !h[alt] {
+						return false
+					}
+				}
+				return true
+			}
+			if !covers(best) {
+				for _, g := range p.staticClosure(f, 2, nil) {
+					if h := perRow(g); covers(h) {
+						best = h
+					}
+				}
+			}
+			requireCases("index|"+nm+"|per-row", p.Pos(f.Pos()), best, withJSON, "list[n] on the element of each row")
+		}
 	}
 	// distance functions: vector conversion
 	seenConv := map[*ssa.Function]bool{}
